@@ -3,7 +3,7 @@ Child process of C12: one tool, genuine process pools (no shim), optionally with
 down just before it announces the length of an imap job (`slow-handler`): the schedule of PoolLife.tla in which every
 result is stored before the length is known.  Prints one JSON line: the tool's result (returned values, digests of the
 files written), {"hang": true} when it does not come back within the budget, or {"exc": ...}.
-Usage: c12_real.py <tool> <n> <seed> <budget seconds> [slow-handler]
+Usage: c12_real.py <tool> <n> <seed> <budget seconds> [slow-handler | spawn | forkserver]
 """
 import json
 import os
@@ -24,6 +24,11 @@ def on_alarm(sig, frm):
 def main():
     tool, n, seed, budget = sys.argv[1], int(sys.argv[2]), int(sys.argv[3]), int(sys.argv[4])
     slow = len(sys.argv) > 5 and sys.argv[5] == "slow-handler"
+    if len(sys.argv) > 5 and sys.argv[5] in ("spawn", "forkserver"):
+        # workers that do NOT inherit the parent's memory (the default start method outside Linux, and of Python 3.14 on Linux):
+        # what a worker needs must reach it through its task, not through a module global the parent set after import
+        import multiprocessing
+        multiprocessing.set_start_method(sys.argv[5], force=True)
     from harness import core
     core.import_repo()
     from checks import c12
